@@ -68,3 +68,12 @@ pub mod math; // pub for benching
 pub mod polynomial; // pub for benching
 pub(crate) mod samplerz;
 pub(crate) mod u32_field;
+
+// Verification hooks: public entry points used by the replay tool of the
+// external verification framework. Compiled only with `--cfg falcon_rust_verif`;
+// the included file is $FALCON_RUST_VERIF_DIR/hooks/api.rs.
+#[cfg(falcon_rust_verif)]
+#[allow(unused, clippy::all)]
+pub mod verif_api {
+    include!(concat!(env!("FALCON_RUST_VERIF_DIR"), "/hooks/api.rs"));
+}
